@@ -19,6 +19,7 @@ import (
 	v1 "k8s.io/api/core/v1"
 	metav1 "k8s.io/apimachinery/pkg/apis/meta/v1"
 	"k8s.io/apimachinery/pkg/labels"
+	"k8s.io/apimachinery/pkg/util/validation"
 	v1lister "k8s.io/client-go/listers/core/v1"
 )
 
@@ -148,6 +149,12 @@ func (k *Kube) putPod(p *v1.Pod, owner string) {
 		k.podOwner[p.Name] = owner
 	}
 	o := k.podOwner[p.Name]
+	// the pod informer's field selector (status.phase!=Succeeded,status.phase!=Failed): a pod reaching a terminal
+	// phase leaves the watch cache (the server sends a DELETED event for the selected set)
+	if p.Status.Phase == v1.PodSucceeded || p.Status.Phase == v1.PodFailed {
+		k.pcache(o).queue = append(k.pcache(o).queue, cacheEvent{key: p.Name, pod: p.DeepCopy(), del: true})
+		return
+	}
 	k.pcache(o).queue = append(k.pcache(o).queue, cacheEvent{key: p.Name, pod: p.DeepCopy()})
 }
 
@@ -403,6 +410,12 @@ func (k *Kube) serveListWatch(req *http.Request, kind string, watch bool, fieldS
 		return &http.Response{StatusCode: 200, Status: "200 OK", Proto: "HTTP/1.1", ProtoMajor: 1, ProtoMinor: 1,
 			Header: http.Header{"Content-Type": []string{"application/json"}}, Body: &blockBody{ch: make(chan struct{})}, Request: req}, nil
 	}
+	// One virtual millisecond before the LIST is answered: the informer goroutine is then durably blocked, so
+	// WaitForCacheSync's immediate first poll always sees "not synced" and start-up costs exactly 100 virtual ms
+	// whatever the real scheduler does (otherwise 0 or 100 ms depending on CPU load: a replay-breaking race).
+	k.mu.Unlock()
+	time.Sleep(time.Millisecond)
+	k.mu.Lock()
 	rv := strconv.FormatInt(k.rev, 10)
 	if kind == "nodes" {
 		l := &v1.NodeList{TypeMeta: metav1.TypeMeta{Kind: "NodeList", APIVersion: "v1"}, ListMeta: metav1.ListMeta{ResourceVersion: rv}}
@@ -445,8 +458,11 @@ func validateTaints(ts []v1.Taint) string {
 			return fmt.Sprintf("taints must be unique by key and effect pair: %s:%s", t.Key, t.Effect)
 		}
 		seen[id] = true
-		if len(t.Value) > 63 {
-			return "taint value too long"
+		if errs := validation.IsValidLabelValue(t.Value); len(errs) > 0 {
+			return "invalid taint value: " + strings.Join(errs, "; ")
+		}
+		if errs := validation.IsQualifiedName(t.Key); len(errs) > 0 {
+			return "invalid taint key: " + strings.Join(errs, "; ")
 		}
 	}
 	return ""
